@@ -140,3 +140,14 @@ PER_BASE = Ob("C20-A1", "R-STAT", "per-base routines: NaN-seeded, value / +1 per
 from ..obs import zoomlist as ZL
 ZOOM_LIST = Ob("C07-Z1", "R-SIB", "zoom size list normalised (zero-free, sorted, duplicate-free, <= MAX_ZOOM_LEVELS) before any per-level state in both pass modes; headers pushed in that order", ZL.ob_zoom_list, floor=6)
 CONTRADICTION = Ob("C02-X1", "R-PRED", "contradiction rule: no record the bigBed writer accepts is refused by the block decoder", PR.ob_reader_writer_contradiction)
+
+from ..obs import queries as QU
+SEARCH_ORDER = Ob("C03-O1", "R-DISC", "index search visits children depth-first in stored order (pop_front + reversed push_front); blocks appended in visit order; chromosome resolved by exact name", QU.ob_search_order, floor=4)
+CACHE = Ob("C03-C1", "R-DISC", "caching reader: key (offset,size) derives Hash+Eq; caches only get/insert/entry/len/clear/clone; values returned are clones", QU.ob_cache, floor=3)
+CACHED_SIBS = Ob("C03-S2", "R-SIB", "plain vs caching reader: same read_node / nodes_overlapping arguments, same read_block_data; cached() keeps info", QU.ob_cached_siblings, floor=3)
+INTERVAL_SIBS = Ob("C03-S3", "R-SIB", "get_interval / get_interval_move (and zoom pair) identical; query reaches search and iterator unchanged; iterators consume blocks in order", QU.ob_interval_siblings, floor=9)
+VALUES_ARRAY = Ob("C03-F1", "R-FLOW", "BigWigRead::values: NaN array of end-start, filled at clipped.start-start..clipped.end-start", QU.ob_values_array)
+BLOCK_DATA = Ob("C10-F1", "R-FLOW", "read_block_data: block.size bytes at block.offset; zlib inflate into uncompressBufSize iff > 0", QU.ob_block_data)
+
+from ..obs import offsets as OF
+TREE_OFFSETS = Ob("C05-F1", "R-FLOW", "R-tree offset premises: level sizes, child offset = base + i*full_size by child kind, descent with accumulated offsets, levels written root->leaves", OF.ob_tree_offsets, floor=3)
